@@ -29,7 +29,8 @@ def floors(ctx):
     q = ctx.tier == "quick"
     return {"evaluations": 5000 if q else 50000, "small_count_default_connectivity": 50,
             "hostile_stream_runs": 100, "reproducibility_checked": 500, "graphs_with_links": 1000,
-            "large_count_runs": 50, "fresh_process_reproducibility_checks": 3}
+            "large_count_runs": 50, "fresh_process_reproducibility_checks": 3,
+            "runs_with_an_extreme_raw_draw": 1000}
 
 
 class ScriptedStream:
@@ -57,6 +58,59 @@ class ScriptedStream:
         if not 0 <= k <= len(pop):
             raise ValueError("Sample larger than population or is negative")
         return pop[len(pop) - k:] if self._hi() else pop[:k]
+
+
+class SpikeRandom(random.Random):
+    """
+    A real seeded generator whose p-th raw draw is an EXTREME value the Mersenne Twister can produce like any
+    other: getrandbits(k) == 2**k - 1 (or 0), random() == 1 - 2**-53 (or 0.0).  Every derived method (randint,
+    sample, choice, shuffle, ...) is the stock one on top of these primitives, so rejection loops simply draw
+    again.  "For every state of the generator" includes the states that yield such a word at this very call.
+    """
+
+    def __init__(self, seed, p, hi):
+        super().__init__(seed)
+        self._p, self._hi, self._n = p, hi, 0
+        self.spiked = False
+
+    def _spike(self):
+        self._n += 1
+        if self._n == self._p:
+            self.spiked = True
+            return True
+        return False
+
+    def getrandbits(self, k):
+        real = super().getrandbits(k)
+        if k > 0 and self._spike():
+            return (1 << k) - 1 if self._hi else 0
+        return real
+
+    def random(self):
+        real = super().random()
+        if self._spike():
+            return 1.0 - 2.0 ** -53 if self._hi else 0.0
+        return real
+
+
+_PATCHED = ("random", "getrandbits", "randint", "randrange", "sample", "choice", "choices", "shuffle", "uniform", "randbytes")
+
+
+def run_spiked(ctx, count, cname, conn, ensure, seed, p, hi):
+    sr = SpikeRandom(seed, p, hi)
+    saved = {n: getattr(random, n) for n in _PATCHED}
+    for n in _PATCHED:
+        setattr(random, n, getattr(sr, n))
+    try:
+        case = {"count": count, "cls": cname, "conn": conn, "ensure": ensure, "seed": seed, "stream": None,
+                "spike": [p, hi]}
+        judge(ctx, count, cname, conn, ensure, f"seed {seed}, raw draw #{p} forced to its {'largest' if hi else 'smallest'} value", case)
+        if sr.spiked:
+            ctx.count("runs_with_an_extreme_raw_draw")
+        return sr.spiked
+    finally:
+        for n, f in saved.items():
+            setattr(random, n, f)
 
 
 def adjacency(uni):
@@ -212,6 +266,12 @@ def run(ctx):
                     if ctx.shard == 0:
                         for mode in ("min", "max", "alt"):
                             run_hostile(ctx, count, cname, conn, ensure, mode)
+                    if count <= 8 and (k + ctx.shard) % 3 == 0:
+                        # every position of the raw stream in turn takes an extreme value
+                        for hi in (True, False):
+                            p = 1
+                            while p <= 200 and run_spiked(ctx, count, cname, conn, ensure, base + count, p, hi):
+                                p += 1
                     k += 1
                     if k in (7, 300) and ctx.shard == 0:
                         ctx.sample({"count": count, "edge": cname, "connectivity": conn, "ensurelink": ensure,
@@ -252,6 +312,8 @@ def replay(ctx, case):
         ctx.evaluated()
         if res[0] != "ok" or len(res[1].vertices) != 15:
             ctx.violation("default_call", "randgraph() with all defaults failed", case)
+    elif case.get("spike"):
+        run_spiked(ctx, case["count"], case["cls"], case["conn"], case["ensure"], case["seed"], case["spike"][0], case["spike"][1])
     elif case.get("stream"):
         run_hostile(ctx, case["count"], case["cls"], case["conn"], case["ensure"], case["stream"])
     else:
